@@ -679,6 +679,7 @@ impl<'p> Interp<'p> {
                 Ok(())
             }
             Stmt::Unreachable(uid) => Err(Abort::Stop(Stop::Unreachable(*uid))),
+            Stmt::Raw(t) => dynerr("raw", format!("raw source text cannot be interpreted: {}", t)),
             Stmt::Assert(a, b) => {
                 let x = self.eval(a, frame)?;
                 let y = self.eval(b, frame)?;
@@ -937,6 +938,7 @@ impl<'p> Interp<'p> {
                 Ok(Val::Variant(Rc::from("Just"), Some(Rc::new(p))))
             }
             EKind::MaybeNone => Ok(Val::Variant(Rc::from("None"), None)),
+            EKind::Raw(t) => dynerr("raw", format!("raw source text cannot be interpreted: {}", t)),
         }
     }
 
